@@ -6,6 +6,18 @@ ALL = ["C%02d" % i for i in range(1, 21)]
 
 # id -> (technique, level text, level_note, design_ref)
 CLAIMS = {
+ "C10": ("Lean 4 refinement proof (brush's persistent table + per-command overlay vs a flat POSIX descriptor table) and here-document scanner proof + three-way correspondence",
+         "Proof: Model/Fd.lean mirrors openfiles.rs and interp.rs setup_redirect (every redirection form, noclobber, exec); Spec/FdFlat.lean is open/dup2/close "
+         "applied left to right. overlay_refines_flat (partial: guard excludes the move form and &>word under noclobber, both refuted by cex and recorded), "
+         "redirects_left_to_right (lifted over lists incl. the state at the first failure), noclobber_never_truncates_existing_regular (+ list form), "
+         "append_preserves_prefix, shell_table_unchanged_after_command (any command tree without exec outside subshells), exec_persists_exactly_its_redirects "
+         "(partial + cex), heredoc_body_exact (char-level mirror of the tokenizer's here-document loop: exactly the lines, tab-stripped only under <<-), "
+         "heredoc_quoted_delimiter_is_literal. Tie: the brush binary and bash, each case in its own scratch directory, observing readlink target / access mode "
+         "/ O_APPEND of fds 0-9 inside a probe, file contents, statuses, where diagnostics land; the Lean driver gives the brush-model and flat-spec predictions; "
+         "here-documents additionally through the in-process tokenizer vs the model.",
+         "Trusted: Lean kernel + standard axioms; bash as oracle; the kernel's descriptor semantics (what the child actually inherits is observed, not proved). "
+         "Self-dups, exec closing 0-2 and moves from 0-2 are left out of generation (they expose bash's own bookkeeping).",
+         "DESIGN.md §6 C10"),
  "C08": ("Lean 4 proof that the regex brush emits for a pattern decides POSIX glob matching (on a backtracking regex semantics) + structural and engine-level correspondence",
          "Proof: Model/Pattern.lean mirrors the PEG rules of brush-parser/src/pattern.rs (parsePat), the translation to regex text (toRe/render) and a "
          "backtracking semantics for the regex subset emitted, including the `(?ms)^…$` search brush performs; Spec/Glob.lean is the POSIX whole-string "
